@@ -64,6 +64,8 @@ class CircuitCarrier:
         st, r = impl_call(self.c.prepare_message, m)
         if st != "ok":
             return st, r
+        if act["n"] == "Send":
+            self.frontier = max(self.frontier, act["k"])
         return "ok", m.packet_id
 
 
@@ -110,8 +112,30 @@ def _ack_batches(self, obs):
     return n, bad
 
 
+def _pings(self, obs):
+    """The endpoint's StartPingCheck names its oldest unacknowledged packet ID (any ID it has sent, or the next one
+    it will use): the proxy forwards it in wire numbering, i.e. translated like that packet itself (the carrier has
+    no unacknowledged packets of its own).  Each ping is a packet of the endpoint with the next ID."""
+    from hippolyzer.lib.base.message.message import Block, Message
+    from hippolyzer.lib.base.network.transport import Direction
+    bad, n = [], 0
+    nxt = self.frontier
+    for k, w in sorted(obs["eff"]):
+        nxt += 1
+        m = Message("StartPingCheck", Block("PingID", PingID=1, OldestUnacked=k), direction=Direction.OUT, packet_id=nxt)
+        st, r = impl_call(self.c.prepare_message, m)
+        n += 1
+        if st != "ok":
+            bad.append(("StartPingCheck raised", k, w, r))
+        elif m["PingID"]["OldestUnacked"] != w:
+            bad.append(("StartPingCheck.OldestUnacked", k, w, m["PingID"]["OldestUnacked"]))
+    return n, bad
+
+
 CircuitCarrier.ack_batches = _ack_batches
+CircuitCarrier.pings = _pings
 CircuitCarrier.in_seq = 0
+CircuitCarrier.frontier = 0
 
 _CARRIER = "tracker"
 
@@ -141,8 +165,9 @@ def _compare(tr, obs):
             bad.append(("was_injected", w, b, r))
     if isinstance(tr, CircuitCarrier):
         n2, b2 = tr.ack_batches(obs)
-        n += n2
-        bad += b2
+        n3, b3 = tr.pings(obs)
+        n += n2 + n3
+        bad += b2 + b3
     return n, bad
 
 
